@@ -11,9 +11,9 @@ MEGABYTE = 1024 * 1024
 
 def case_bytes(case):
     f = case.split()
-    key = bytes.fromhex(f[6]) if f[6] != "-" else b""
-    value = bytes.fromhex(f[7]) if f[7] != "-" else b""
-    return int(f[3]), int(f[4]), int(f[5]), key, value
+    key = bytes.fromhex(f[7]) if f[7] != "-" else b""
+    value = bytes.fromhex(f[8]) if f[8] != "-" else b""
+    return int(f[4]), int(f[5]), int(f[6]), key, value
 
 
 def case_cluster(case):
